@@ -47,9 +47,9 @@ End S16.
 
 (** ---- the number of non-king pieces (which selects the output head) is the "accumulator" of
     the group (Z,+) with every weight 1: it has the same symmetries ---- *)
-Definition nonKingCount (b : board) : Z := freshAcc Z Z.add 0 (fun _ => 1) 0 true 0 b.
+Definition nonKingCount (b : board) : Z := Z.of_nat (length (nonKingList b)).
 
-Lemma nonKingCount_length b : nonKingCount b = Z.of_nat (length (nonKingList b)).
+Lemma count_fresh c k b : freshAcc Z Z.add 0 (fun _ => 1) 0 c k b = nonKingCount b.
 Proof.
   unfold nonKingCount, freshAcc. generalize (nonKingList b). intros l.
   induction l as [|a r IH]; [reflexivity|].
@@ -59,16 +59,31 @@ Qed.
 
 Theorem nonKingCount_swap b : piecesValid b -> nonKingCount (flipBoard b) = nonKingCount b.
 Proof.
-  intros Hb. unfold nonKingCount.
-  pose proof (fresh_swap Z Z.add 0 (fun _ => 1) 0 Z.add_assoc Z.add_comm Z.add_0_r false 0 b eq_refl Hb) as E.
-  unfold freshAcc in *. unfold featW in *. exact E.
+  intros Hb. rewrite <- (count_fresh true (flipSq 0) (flipBoard b)), <- (count_fresh false 0 b).
+  exact (fresh_swap Z Z.add 0 (fun _ => 1) 0 Z.add_assoc Z.add_comm Z.add_0_r false 0 b eq_refl Hb).
 Qed.
 
 Theorem nonKingCount_mirror b : nonKingCount (mirrorBoard b) = nonKingCount b.
 Proof.
-  unfold nonKingCount.
-  pose proof (fresh_mirror Z Z.add 0 (fun _ => 1) 0 Z.add_assoc Z.add_comm Z.add_0_r true 0 b eq_refl) as E.
-  unfold freshAcc in *. unfold featW in *. exact E.
+  rewrite <- (count_fresh true (mirrorSq 0) (mirrorBoard b)), <- (count_fresh true 0 b).
+  exact (fresh_mirror Z Z.add 0 (fun _ => 1) 0 Z.add_assoc Z.add_comm Z.add_0_r true 0 b eq_refl).
+Qed.
+
+(** any function of the accumulator pair and the piece count is symmetric *)
+Theorem nn_value_symmetric :
+  forall (V : Type) (vadd : V -> V -> V) (vzero : V) (w : Z -> V) (bias : V) (R : Type) (later : V * V -> Z -> R),
+  (forall a b c, vadd a (vadd b c) = vadd (vadd a b) c) ->
+  (forall a b, vadd a b = vadd b a) ->
+  (forall a, vadd a vzero = a) ->
+  let nnValue b kw kb wtm := later (nnInput V vadd vzero w bias b kw kb wtm) (nonKingCount b) in
+  forall b kw kb wtm, validSq kw = true -> validSq kb = true ->
+    (piecesValid b -> nnValue (flipBoard b) (flipSq kb) (flipSq kw) (negb wtm) = nnValue b kw kb wtm) /\
+    nnValue (mirrorBoard b) (mirrorSq kw) (mirrorSq kb) wtm = nnValue b kw kb wtm.
+Proof.
+  intros V vadd vzero w bias R later A C Z0 nnValue b kw kb wtm Hw Hb. unfold nnValue. split.
+  - intros Hp. rewrite (colour_swap_invariant V vadd vzero w bias A C Z0 b kw kb wtm Hw Hb Hp), (nonKingCount_swap b Hp).
+    reflexivity.
+  - rewrite (mirror_invariant V vadd vzero w bias A C Z0 b kw kb wtm Hw Hb), (nonKingCount_mirror b). reflexivity.
 Qed.
 
 (** ---- examples (non-vacuity) ---- *)
@@ -97,9 +112,9 @@ Definition exOps : list op :=
     OPush 4 60 (nonKingList b1); OSet 62 11 0; OSet 45 0 11;
     OPush 4 60 (nonKingList b2); OSet 4 1 0; OSet 12 0 1;
     OCompute 12 60 (nonKingList b3);
-    OSet 16 0 6; OSet 17 0 6; OSet 18 0 6; OSet 19 0 6; OSet 20 0 6;
-    OCompute 12 60 (nonKingList (updBoard (updBoard (updBoard (updBoard (updBoard b3 16 6) 17 6) 18 6) 19 6) 20 6));
-    OSet 20 6 0; OSet 19 6 0; OSet 18 6 0; OSet 17 6 0; OSet 16 6 0;
+    OSet 48 12 0; OSet 49 12 0; OSet 50 12 0; OSet 51 12 0; OSet 52 12 0;
+    OCompute 12 60 (nonKingList (updBoard (updBoard (updBoard (updBoard (updBoard b3 48 0) 49 0) 50 0) 51 0) 52 0));
+    OSet 52 0 12; OSet 51 0 12; OSet 50 0 12; OSet 49 0 12; OSet 48 0 12;
     OPop b2; OCompute 4 60 (nonKingList b2);
     OPop b1; OPop b0; OPop b1;
     OCompute 4 60 (nonKingList b1);
